@@ -98,7 +98,16 @@ def main():
                 shutil.copy(os.path.join(src, "notes.md"), out_dir)
         meta["needs_to_manifest"] = needs_from_notes(os.path.join(out_dir, "notes.md"))
         meta["what_i_ran"] = "tools/seedcheck.py: patch -p1 onto a scratch copy of /repo; go build; tools/baseline.sh (all 663 baseline tests); go test -run <demo> with and without the patch; bin/apcheck -target <scratch> -property <props>"
-        json.dump(meta, open(os.path.join(out_dir, "meta.json"), "w"), indent=1)
+        mp = os.path.join(out_dir, "meta.json")
+        if os.path.exists(mp):
+            try:
+                prev = json.load(open(mp))
+                for k in ("status", "status_reason"):
+                    if k in prev:
+                        meta[k] = prev[k]
+            except Exception:
+                pass
+        json.dump(meta, open(mp, "w"), indent=1)
     print(json.dumps({k: meta[k] for k in meta if k not in ("demo_output_with_patch",)}, indent=1))
     return 0
 
